@@ -133,12 +133,22 @@ func (h *handler) Handle(ctx context.Context, header *protocol.RequestHeader, re
 				topicNames = append(topicNames, *t.Topic)
 			}
 		}
+		var invalidTopics map[string]struct{}
 		if h.autoCreateTopics && len(topicNames) > 0 {
 			for _, name := range topicNames {
 				if strings.TrimSpace(name) == "" {
 					continue
 				}
 				if err := h.ensureTopic(ctx, name, 0); err != nil {
+					if errors.Is(err, metadata.ErrInvalidTopic) {
+						// Answer for this topic with an error code instead of
+						// failing the whole request.
+						if invalidTopics == nil {
+							invalidTopics = make(map[string]struct{})
+						}
+						invalidTopics[name] = struct{}{}
+						continue
+					}
 					return nil, fmt.Errorf("auto-create topic %s: %w", name, err)
 				}
 			}
@@ -192,6 +202,14 @@ func (h *handler) Handle(ctx context.Context, header *protocol.RequestHeader, re
 		resp.ClusterID = meta.ClusterID
 		resp.ControllerID = meta.ControllerID
 		resp.Topics = meta.Topics
+		for i := range resp.Topics {
+			if resp.Topics[i].Topic == nil || resp.Topics[i].ErrorCode != protocol.UNKNOWN_TOPIC_OR_PARTITION {
+				continue
+			}
+			if _, ok := invalidTopics[*resp.Topics[i].Topic]; ok {
+				resp.Topics[i].ErrorCode = protocol.INVALID_TOPIC_EXCEPTION
+			}
+		}
 		if h.traceKafka {
 			topicSummaries := make([]string, 0, len(meta.Topics))
 			for _, topic := range meta.Topics {
@@ -1055,6 +1073,9 @@ func (h *handler) handleProduce(ctx context.Context, header *protocol.RequestHea
 				p := kmsg.NewProduceResponseTopicPartition()
 				p.Partition = part.Partition
 				p.ErrorCode = protocol.UNKNOWN_SERVER_ERROR
+				if errors.Is(err, metadata.ErrInvalidTopic) {
+					p.ErrorCode = protocol.INVALID_TOPIC_EXCEPTION
+				}
 				partitionResponses = append(partitionResponses, p)
 				continue
 			}
@@ -1269,7 +1290,7 @@ func (h *handler) handleDeleteTopics(ctx context.Context, header *protocol.Reque
 }
 
 func (h *handler) validateCreateTopic(ctx context.Context, topic kmsg.CreateTopicsRequestTopic) error {
-	if topic.Topic == "" || topic.NumPartitions <= 0 {
+	if !metadata.ValidTopicName(topic.Topic) || topic.NumPartitions <= 0 {
 		return metadata.ErrInvalidTopic
 	}
 	replicationFactor := topic.ReplicationFactor
@@ -1838,6 +1859,8 @@ func (h *handler) handleFetch(ctx context.Context, header *protocol.RequestHeade
 				errorCode := int16(protocol.UNKNOWN_SERVER_ERROR)
 				if !h.etcdAvailable() {
 					errorCode = protocol.REQUEST_TIMED_OUT
+				} else if errors.Is(err, metadata.ErrInvalidTopic) {
+					errorCode = protocol.INVALID_TOPIC_EXCEPTION
 				}
 				p := kmsg.NewFetchResponseTopicPartition()
 				p.Partition = part.Partition
